@@ -322,11 +322,7 @@ fn judge(o: &mut Outcome, cfg: &HistCfg, h: &HistOut) {
     }
     // (b) server-side monitor
     for v in h.log.violations() {
-        if v.contains("reused") {
-            o.violation("e2e:stream-id-double-booked", format!("the node received a request on a stream id it had not answered yet: {v}"), replay.clone());
-        } else {
-            o.violation("e2e:malformed-request-frame", format!("the node could not accept a request frame: {v}"), replay.clone());
-        }
+        o.node_violation("c02", &v, replay.clone());
     }
     let mut ok = 0u64;
     let mut errs = 0u64;
